@@ -631,13 +631,47 @@ Fixpoint bind_args (ps : list text) (as_ : list expr) (env : scope) (m : machine
       | [] => bind_args ps' [] (alist_set p1 VNil env) m
       end
   end.
+
+(* evaluate_all_indexes: every index of an indexed assignment is a one-element list literal *)
+Fixpoint eval_indexes (is : list expr) (m : machine) : outcome (list index * machine) :=
+  match is with
+  | [] => Ok ([], m)
+  | i1 :: r =>
+      do '(iv, m1) <- ev i1 m;
+      match iv with
+      | VList a =>
+          do l <- get_list (m_heap m1) a;
+          match l with
+          | VNum x :: _ => do '(p, m2) <- eval_indexes r m1; Ok (IxNum x :: p, m2)
+          | VStr k :: _ => do '(p, m2) <- eval_indexes r m1; Ok (IxKey k :: p, m2)
+          | _ => fail_at ERuntime (expr_pos i1) m1
+          end
+      | _ => fail_at ERuntime (expr_pos i1) m1
+      end
+  end.
 End EvalLoops.
 
-(* one fuel unit per nested evaluation / interpreted statement; [eval], [interp] and the call loop are mutually recursive *)
-Fixpoint eval (fuel : nat) (e : expr) (m : machine) {struct fuel} : outcome (value * machine) :=
-  match fuel with
+(* interpret_else_stmt: skip every remaining branch of the chain *)
+Section SkipChain.
+Variable m : machine.
+Fixpoint skip_chain (k : nat) (pc : nat) : outcome machine :=
+  match k with
   | O => OutOfFuel
-  | S f =>
+  | S k' =>
+    let pc1 := match stmt_at pc with Some (FIf _ _) => S pc | _ => pc end in
+    do pc2 <- skip_block_from m pc1;
+    match stmt_at pc2 with
+    | Some (FElse _) => skip_chain k' (S pc2)
+    | _ => Ok (set_pc m pc2)
+    end
+  end.
+End SkipChain.
+
+(* One layer of the mutually recursive evaluator, with the recursive occurrences as parameters (open recursion):
+   [ev] evaluates a sub-expression, [cl] runs a function body until its cursor rests on a Return, [ip] interprets one
+   statement.  The fixpoints below tie the knot on fuel. *)
+Definition eval_step (ev : expr -> machine -> outcome (value * machine)) (cl : machine -> outcome machine)
+                     (e : expr) (m : machine) : outcome (value * machine) :=
     match e with
     | ENil _ => Ok (VNil, m)
     | EBool b _ => Ok (VBool b, m)
@@ -645,15 +679,15 @@ Fixpoint eval (fuel : nat) (e : expr) (m : machine) {struct fuel} : outcome (val
     | EStr s _ => Ok (VStr s, m)
     | EVar x _ => match lookup_var x (m_scopes m) with Some v => Ok (v, m) | None => rt_err m end
     | EList es _ =>
-        do '(vs, m1) <- eval_list (eval f) es m;
+        do '(vs, m1) <- eval_list (ev) es m;
         let '(a, h') := alloc_list (m_heap m1) vs in Ok (VList a, set_heap m1 h')
-    | EGroup e1 _ => eval f e1 m
+    | EGroup e1 _ => ev e1 m
     | ERec ks vs _ =>
-        do '(r, m1) <- eval_rec (eval f) ks vs [] m;
+        do '(r, m1) <- eval_rec (ev) ks vs [] m;
         let '(a, h') := alloc_rec (m_heap m1) r in Ok (VRec a, set_heap m1 h')
     | EUn o e1 _ =>
         let p := expr_pos e1 in
-        do '(v, m1) <- eval f e1 m;
+        do '(v, m1) <- ev e1 m;
         match v, o with
         | VNum x, UNeg => Ok (VNum (f_neg x), m1)
         | VBool b, UNot => Ok (VBool (negb b), m1)
@@ -663,15 +697,15 @@ Fixpoint eval (fuel : nat) (e : expr) (m : machine) {struct fuel} : outcome (val
         let p := expr_pos l in
         match o with
         | BAnd | BOr =>
-            do '(rv, m1) <- eval f r m;
-            do '(lv, m2) <- eval f l m1;
+            do '(rv, m1) <- ev r m;
+            do '(lv, m2) <- ev l m1;
             match rv, lv with
             | VBool a, VBool b => Ok (VBool (match o with BAnd => a && b | _ => a || b end), m2)
             | _, _ => fail_at EType p m2
             end
         | BAdd | BSub =>
-            do '(lv, m1) <- eval f l m;
-            do '(rv, m2) <- eval f r m1;
+            do '(lv, m1) <- ev l m;
+            do '(rv, m2) <- ev r m1;
             match lv, rv with
             | VNum a, VNum b => Ok (VNum (match o with BAdd => f_add a b | _ => f_sub a b end), m2)
             | VStr a, VStr b => match o with BAdd => Ok (VStr (a ++ b), m2) | _ => fail_at EType p m2 end
@@ -685,19 +719,19 @@ Fixpoint eval (fuel : nat) (e : expr) (m : machine) {struct fuel} : outcome (val
             | _, _ => fail_at EType p m2
             end
         | BMul | BDiv | BRem =>
-            do '(rv, m1) <- eval f r m;
-            do '(lv, m2) <- eval f l m1;
+            do '(rv, m1) <- ev r m;
+            do '(lv, m2) <- ev l m1;
             match rv, lv with
             | VNum b, VNum a => Ok (VNum (match o with BMul => f_mul a b | BDiv => f_div a b | _ => f_rem a b end), m2)
             | _, _ => fail_at EType p m2
             end
         | BEq | BNe =>
-            do '(lv, m1) <- eval f l m;
-            do '(rv, m2) <- eval f r m1;
+            do '(lv, m1) <- ev l m;
+            do '(rv, m2) <- ev r m1;
             Ok (VBool (match o with BEq => value_eqb lv rv | _ => negb (value_eqb lv rv) end), m2)
         | BLt | BLe | BGt | BGe =>
-            do '(lv, m1) <- eval f l m;
-            do '(rv, m2) <- eval f r m1;
+            do '(lv, m1) <- ev l m;
+            do '(rv, m2) <- ev r m1;
             match lv, rv with
             | VNum a, VNum b =>
                 Ok (VBool (match o with BLt => f_ltb a b | BLe => f_leb a b | BGt => f_ltb b a | _ => f_leb b a end), m2)
@@ -706,8 +740,8 @@ Fixpoint eval (fuel : nat) (e : expr) (m : machine) {struct fuel} : outcome (val
         end
     | EIndex a i _ =>
         let p := expr_pos i in
-        do '(av, m1) <- eval f a m;
-        do '(iv, m2) <- eval f i m1;
+        do '(av, m1) <- ev a m;
+        do '(iv, m2) <- ev i m1;
         match av, iv with
         | VList x, VNum n =>
             do l <- get_list (m_heap m2) x;
@@ -731,21 +765,21 @@ Fixpoint eval (fuel : nat) (e : expr) (m : machine) {struct fuel} : outcome (val
         match fe with
         | EVar name np =>
             if is_builtin name then
-              do '(vs, m1) <- eval_list (eval f) args m;
+              do '(vs, m1) <- eval_list (ev) args m;
               call_builtin name np vs m1
             else
               do fv <- (match lookup_var name (m_scopes m) with Some v => Ok v | None => rt_err m end);
               match fv with
               | VFun start params =>
                   (* bind parameters by position; surplus arguments are not evaluated *)
-                  do '(env, m1) <- bind_args (eval f) params args [] m;
+                  do '(env, m1) <- bind_args (ev) params args [] m;
                   let m2 := mkM start (env :: m_scopes m1) (m_loops m1) loop_count (m_pc m1 :: m_ret m1) (m_heap m1) (m_out m1) (m_world m1) (m_collections m1) in
                   match stmt_at start with
                   | Some (FBlockStart _) =>
-                      do m3 <- call_loop f m2;
+                      do m3 <- cl m2;
                       match stmt_at (m_pc m3) with
                       | Some (FReturn re _) =>
-                          let rv := eval f re m3 in
+                          let rv := ev re m3 in
                           match m_ret m3 with
                           | [] => Panic SiteUnwrap
                           | ra :: rets =>
@@ -769,40 +803,34 @@ Fixpoint eval (fuel : nat) (e : expr) (m : machine) {struct fuel} : outcome (val
               end
         | _ => rt_err m
         end
-    end
-  end
+    end.
+
 (* the loop of interpret_func_call_expr: interpret statements until the cursor rests on a Return *)
-with call_loop (fuel : nat) (m : machine) {struct fuel} : outcome machine :=
-  match fuel with
-  | O => OutOfFuel
-  | S f =>
+Definition call_loop_step (ip cl : machine -> outcome machine) (m : machine) : outcome machine :=
     match stmt_at (m_pc m) with
     | None => Panic SiteIndex
     | Some (FReturn _ _) => Ok m
-    | Some _ => do m1 <- interp f m; call_loop f m1
-    end
-  end
+    | Some _ => do m1 <- ip m; cl m1
+    end.
+
 (* interpret(): one statement *)
-with interp (fuel : nat) (m : machine) {struct fuel} : outcome machine :=
-  match fuel with
-  | O => OutOfFuel
-  | S f =>
+Definition interp_step (ev : expr -> machine -> outcome (value * machine)) (m : machine) : outcome machine :=
     match stmt_at (m_pc m) with
     | None => Panic SiteIndex
     | Some s =>
       match s with
-      | FPrint e _ => do '(v, m1) <- eval f e m; do_print true v m1
-      | FPrintNoEol e _ => do '(v, m1) <- eval f e m; do_print false v m1
+      | FPrint e _ => do '(v, m1) <- ev e m; do_print true v m1
+      | FPrintNoEol e _ => do '(v, m1) <- ev e m; do_print false v m1
       | FAssign AFirst x _ _ init _ =>
           match init with
-          | Some e => do '(v, m1) <- eval f e m; do ss <- declare x v (m_scopes m1); Ok (next (set_scopes m1 ss))
+          | Some e => do '(v, m1) <- ev e m; do ss <- declare x v (m_scopes m1); Ok (next (set_scopes m1 ss))
           | None => do ss <- declare x VNil (m_scopes m); Ok (next (set_scopes m ss))
           end
       | FAssign AReassign x _ idx init _ =>
           match init with
           | None => Panic SiteUnwrap
           | Some e =>
-            do '(v, m1) <- eval f e m;
+            do '(v, m1) <- ev e m;
             match idx with
             | [] =>
                 match assign_var x v (m_scopes m1) with
@@ -814,31 +842,16 @@ with interp (fuel : nat) (m : machine) {struct fuel} : outcome machine :=
                 | None => rt_err m1
                 | Some container =>
                     (* evaluate_all_indexes: every index is a one-element list literal *)
-                    do '(path, m2) <- (fix go (is : list expr) (m : machine) : outcome (list index * machine) :=
-                                         match is with
-                                         | [] => Ok ([], m)
-                                         | i1 :: r =>
-                                             do '(iv, m1) <- eval f i1 m;
-                                             match iv with
-                                             | VList a =>
-                                                 do l <- get_list (m_heap m1) a;
-                                                 match l with
-                                                 | VNum x :: _ => do '(p, m2) <- go r m1; Ok (IxNum x :: p, m2)
-                                                 | VStr k :: _ => do '(p, m2) <- go r m1; Ok (IxKey k :: p, m2)
-                                                 | _ => fail_at ERuntime (expr_pos i1) m1
-                                                 end
-                                             | _ => fail_at ERuntime (expr_pos i1) m1
-                                             end
-                                         end) idx m1;
+                    do '(path, m2) <- eval_indexes (ev) idx m1;
                     do p <- here m2;
                     do m3 <- assign_path m2 container path v p;
                     Ok (next m3)
                 end
             end
           end
-      | FExpr e _ => do '(_, m1) <- eval f e m; Ok (next m1)
+      | FExpr e _ => do '(_, m1) <- ev e m; Ok (next m1)
       | FIf c _ =>
-          do '(v, m1) <- eval f c m;
+          do '(v, m1) <- ev c m;
           match v with
           | VBool true => Ok (next m1)
           | VBool false =>
@@ -851,17 +864,7 @@ with interp (fuel : nat) (m : machine) {struct fuel} : outcome machine :=
           end
       | FElse _ =>
           (* reached only after a branch of the chain ran: skip every remaining branch *)
-          (fix skip_chain (k : nat) (pc : nat) : outcome machine :=
-             match k with
-             | O => OutOfFuel
-             | S k' =>
-               let pc1 := match stmt_at pc with Some (FIf _ _) => S pc | _ => pc end in
-               do pc2 <- skip_block_from m pc1;
-               match stmt_at pc2 with
-               | Some (FElse _) => skip_chain k' (S pc2)
-               | _ => Ok (set_pc m pc2)
-               end
-             end) (S (length code)) (S (m_pc m))
+          skip_chain m (S (length code)) (S (m_pc m))
       | FFuncDef _ =>
           let pc1 := S (m_pc m) in
           match stmt_at pc1 with
@@ -915,7 +918,24 @@ with interp (fuel : nat) (m : machine) {struct fuel} : outcome machine :=
           else Ok (next (set_scopes m (tl (m_scopes m))))
       | FReturn _ _ | FEOS _ => rt_err m
       end
-    end
+    end.
+
+(* one fuel unit per nesting level.  All arguments are taken before the match so that the extracted OCaml code builds
+   the closures [eval f], [call_loop f], [interp f] without running them. *)
+Fixpoint eval (fuel : nat) (e : expr) (m : machine) {struct fuel} : outcome (value * machine) :=
+  match fuel with
+  | O => OutOfFuel
+  | S f => eval_step (eval f) (call_loop f) e m
+  end
+with call_loop (fuel : nat) (m : machine) {struct fuel} : outcome machine :=
+  match fuel with
+  | O => OutOfFuel
+  | S f => call_loop_step (interp f) (call_loop f) m
+  end
+with interp (fuel : nat) (m : machine) {struct fuel} : outcome machine :=
+  match fuel with
+  | O => OutOfFuel
+  | S f => interp_step (eval f) m
   end.
 
 (* Interpreter::run with the collection schedule made explicit:
